@@ -109,6 +109,9 @@ func newPointerEncoder(encoder *encoding.EncodeAssembler[any, Value]) encoding.E
 					return nil, nil
 				}
 				s := reflect.ValueOf(source)
+				if s.IsNil() {
+					return nil, nil
+				}
 				return enc.Encode(s.Elem().Interface())
 			}), nil
 		}
@@ -129,12 +132,23 @@ func newPointerDecoder(decoder *encoding.DecodeAssembler[Value, any]) encoding.D
 			}
 
 			return encoding.DecodeFunc(func(source Value, target unsafe.Pointer) error {
+				if source == nil {
+					return nil
+				}
 				t := reflect.NewAt(typ.Elem(), target)
 				if t.Elem().IsNil() {
 					zero := reflect.New(t.Type().Elem().Elem())
 					t.Elem().Set(zero)
 				}
 				return dec.Decode(source, t.Elem().UnsafePointer())
+			}), nil
+		} else if typ.Kind() == reflect.Pointer && typ.Elem() == types[KindUnknown] {
+			return encoding.DecodeFunc(func(source Value, target unsafe.Pointer) error {
+				if source == nil {
+					*(*any)(target) = nil
+					return nil
+				}
+				return errors.WithStack(encoding.ErrUnsupportedType)
 			}), nil
 		}
 		return nil, errors.WithStack(encoding.ErrUnsupportedType)
